@@ -531,6 +531,8 @@ def curated():
     # defect candidates (D1, D2): kept so that the checks decide them
     T.append(E("ExplDiscU8", [Vr("A", discr=5), Vr("B", discr=7)], repr="u8", tags=("explicit-discr",), containers=("vec", "arr", "opt")))
     T.append(S("HoldsExplDisc", [F("e", "ExplDiscU8"), F("x", "u8")], repr="C", tags=("explicit-discr",), containers=("vec",)))
+    T.append(E("ExplDiscC", [Vr("A", discr=5), Vr("B", discr=7)], repr="C", tags=("explicit-discr",), containers=("vec", "arr")))
+    T.append(S("HoldsExplDiscC", [F("e", "ExplDiscC"), F("x", "u32")], repr="C", tags=("explicit-discr",), containers=()))
     T.append(E("ExplDiscPlain", [Vr("A", discr=5), Vr("B", discr=7)], tags=("explicit-discr",), containers=("vec", "opt")))
     T.append(E("UnitAndFieldU8", [Vr("A"), Vr("B", [F("x0", "u8")])], repr="u8", tags=("unit-and-field",), containers=("vec", "arr")))
     T.append(E("UnitAndFieldU8Wide", [Vr("A"), Vr("B", [F("x0", "u8"), F("x1", "u16")]), Vr("C")], repr="u8, C", tags=("unit-and-field",), containers=("vec",)))
